@@ -119,7 +119,8 @@ def main(argv):
     counters = Counter()
     samples = []
     harness_errors = []
-    max_vio = 200
+    max_per_mech = 25      # a frequent (e.g. known) mechanism must not crowd out a rare one
+    per_mech = Counter()
     for i, recipe in enumerate(prop.cases(tier, seed)):
         if i % K != k:
             continue
@@ -132,7 +133,8 @@ def main(argv):
             if len(harness_errors) < 5:
                 harness_errors.append({"recipe": recipe, "error": obs.note})
         for v in obs.violations:
-            if len(violations) < max_vio:
+            per_mech[v["mech"]] += 1
+            if per_mech[v["mech"]] <= max_per_mech and len(per_mech) <= 400:
                 violations.append(dict(v, recipe=recipe))
             counters["violations_total"] += 1
         if len(samples) < 2 and obs.nontrivial:
